@@ -37,11 +37,6 @@ fn cell(c: &Cell) -> PResult {
     let what = format!("codon {} at symbol {pos} (how={})", String::from_utf8_lossy(&codon_letters), c.how);
     let aa = no_panic("to_amino_panic", &format!("STANDARD.to_amino, {what}"), || STANDARD.to_amino(b.slice()))?;
     ensure_eq!(aa.to_char(), exp as char, "to_amino", "STANDARD.to_amino of {what}");
-    // the 6 codon bits read as an amino code
-    let t = AminoC::try_from_bits(c.pattern);
-    ensure_eq!(t.map(|a| a.to_char()), Some(exp as char), "amino_try_from_bits", "Amino::try_from_bits({:#08b}) for {what}", c.pattern);
-    let u = no_panic("amino_unsafe_from_bits_panic", "Amino::unsafe_from_bits", || AminoC::unsafe_from_bits(c.pattern))?;
-    ensure_eq!(u.to_char(), exp as char, "amino_unsafe_from_bits", "Amino::unsafe_from_bits({:#08b})", c.pattern);
     let straddles = (pos * 2) / 64 != (pos * 2 + 5) / 64;
     Ok(Pass::new(true).class_if(straddles && c.how == 0, "codon_straddles_word"))
 }
